@@ -300,7 +300,36 @@ fn random_ref(rng: &mut Rng, f: &Forest, want_abnormal: bool) -> Ref {
 pub fn run_case(sink: &mut Sink, rng: &mut Rng, cfg: &GenCfg) {
     let mut xot = Xot::new();
     let vocab = Vocab::standard(&mut xot);
-    match rng.below(10) {
+    match rng.below(11) {
+        // a container against its only content: a document node and its document element (in place
+        // and as an equal unattached copy), an element and its only child — node kinds differ while
+        // the filtered edge streams nearly coincide
+        10 => {
+            let e = gen_element(rng, cfg, 1);
+            let mut kids = vec![];
+            if rng.chance(1, 2) {
+                kids.push(GTree::leaf(GValue::Comment("c".into())));
+            }
+            kids.push(e.clone());
+            if rng.chance(1, 2) {
+                kids.push(GTree::leaf(GValue::PI(17, None)));
+            }
+            let epos = kids.iter().position(|k| matches!(k.v, GValue::Element(_))).unwrap();
+            let wrapper = GTree::new(GValue::Element(5), vec![e.clone()]);
+            let f = Forest::build(&mut xot, &vocab, vec![GTree::new(GValue::Document, kids), e, wrapper]);
+            let doc = f.find(0, &[]).unwrap();
+            let inner = f.find(0, &[epos]).unwrap();
+            let copy = f.find(1, &[]).unwrap();
+            let wrap = f.find(2, &[]).unwrap();
+            let wrapped = f.find(2, &[0]).unwrap();
+            sink.stat("case.container-vs-content");
+            for (ra, rb) in [(doc, inner), (doc, copy), (wrap, wrapped), (wrap, copy)] {
+                for op in [Op::Deep, Op::Xpath(CMPS[0]), Op::Children, Op::Shallow, Op::Adv("xpath", CMPS[0]), Op::Adv("elem", CMPS[0]), Op::CanonEq] {
+                    run_binary(sink, &xot, &vocab, &f, &op, ra, rb);
+                    run_binary(sink, &xot, &vocab, &f, &op, rb, ra);
+                }
+            }
+        }
         // a tree, a one-feature mutant of it, and a third tree (mutant of the mutant, or a
         // spelling-only variant): same path in all of them
         0..=5 => {
